@@ -67,6 +67,10 @@ def mutants_of(repo):
                         else:
                             new = rep
                         ms.append({"file": f, "line": i + 1, "col": m.start(), "old": m.group(0), "new": new, "text": ln.strip()[:140]})
+            # statement deletion: a whole `…;` line that is not a declaration / return / control-flow line
+            t = ln.strip()
+            if os.environ.get("MUT_DELETE") and t.endswith(";") and not re.match(r"(let|return|use|pub|fn|const|static|type|break|continue|\}|\)|\]|//)", t) and "?" not in t.split("=")[0] and t.count("(") == t.count(")"):
+                ms.append({"file": f, "line": i + 1, "col": len(ln) - len(ln.lstrip()), "old": t, "new": "", "text": "DELETE " + t[:120]})
     return ms
 
 
@@ -87,7 +91,7 @@ def setup_worker(k):
 
 def run_mutant(k, m):
     w = f"{BASE}/w{k}"; repo = f"{w}/repo"
-    env = dict(os.environ, CARGO_NET_OFFLINE="true", VERIF_EVIDENCE_DIR=f"{w}/evidence")
+    env = dict(os.environ, CARGO_NET_OFFLINE="true", VERIF_EVIDENCE_DIR=f"{w}/evidence", VERIF_TOOL_TIMEOUT=os.environ.get("VERIF_TOOL_TIMEOUT", "240"))
     tenv = dict(env, CARGO_TARGET_DIR=f"{w}/target")      # (only for the crate's own test suite; the harness has its own target dir)
     sh("git checkout -q -- .", cwd=repo)
     p = f"{repo}/{m['file']}"
@@ -97,7 +101,7 @@ def run_mutant(k, m):
     open(p, "w").write("\n".join(lines))
     res = dict(m)
     try:
-        r = sh("cargo test --offline 2>&1 | grep -E '^test result|^error' | head -5", cwd=repo, timeout=600, env=tenv)
+        r = sh("cargo test --offline 2>&1 | grep -E '^test result|^error' | head -5", cwd=repo, timeout=240, env=tenv)
         out = r.stdout
         if "error" in out and "test result" not in out:
             res["verdict"] = "no-compile"
@@ -137,6 +141,8 @@ def main():
         run_all(pick)
         return
     ms = mutants_of("/repo")
+    if os.environ.get("MUT_ONLY_DELETE"):
+        ms = [m for m in ms if m["text"].startswith("DELETE")]
     rnd = random.Random(SEED)
     # stratified by file: equal share per file, then fill up
     byf = {}
